@@ -315,7 +315,7 @@ int main (int argc, char *argv[]) {
                      * out the split string */
                     matched++;
                     if(matched == split_size) {
-                        if(l > matched)
+                        if(l - (start + matched - 1) > 0)
                             write_data(zck, data + start, l - (start + matched - 1));
                         if(zck_end_chunk(zck) < 0)
                             exit(1);
@@ -333,8 +333,16 @@ int main (int argc, char *argv[]) {
                 }
             }
         }
-        write_data(zck, data + start, in_size - (start + matched));
+        /* Hold back the part of a partial match that lies in this block (a
+         * match carried over from the previous block may be longer than that) */
+        ssize_t held = matched;
+        if(held > in_size - start)
+            held = in_size - start;
+        write_data(zck, data + start, in_size - (start + held));
     }
+    /* A partial match at the end of the input is ordinary data */
+    if(matched > 0)
+        write_data(zck, arguments.split_string, matched);
 
     close(in_fd);
 
